@@ -24,12 +24,645 @@ structure KI (c : Cfg) (s : NodeState) : Prop where
   dec : ∀ b r, s.decided = some (b, r) → r = s.commitRound ∧
     maj23Of (s.votes.getVoteSet s.commitRound .precommit) = some (some b)
 
+theorem maj23Of_some_iff {o : Option VoteSet} {k : Bid} :
+    maj23Of o = some k ↔ ∃ vs, o = some vs ∧ vs.maj23 = some k := by
+  unfold maj23Of
+  cases o with
+  | none => simp
+  | some vs => simp
+
+/-- with no votes added, the recorded majority is literally the same -/
+theorem VReach.maj23_eq {c : Cfg} {a b : VoteSet} (h : VReach c (fun _ => False) a b) : b.maj23 = a.maj23 := by
+  induction h with
+  | refl => rfl
+  | add v _ hb _ => exact hb.elim
+  | claim p k _ ih => rw [VoteSet.setPeerMaj23_maj23]; exact ih
+
+/-- no votes added: no new recorded majority -/
+theorem HExt.maj23_back {c : Cfg} {a b : HVS} (h : HExt c (fun _ _ _ => False) a b)
+    {r : Int} {t : VType} {x : Bid} (hm : maj23Of (b.getVoteSet r t) = some x) :
+    maj23Of (a.getVoteSet r t) = some x := by
+  obtain ⟨vs', hg', hx⟩ := maj23Of_some_iff.1 hm
+  rcases h.bwd r t vs' hg' with ⟨vs, hg, hr⟩ | ⟨_, hr⟩
+  · rw [hg]; exact maj23Of_some_iff.2 ⟨vs, rfl, by rw [← hr.maj23_eq]; exact hx⟩
+  · have := hr.maj23_eq
+    rw [hx] at this; cases this
+
+theorem VoteSet.addVerified_not_added (c : Cfg) (vs : VoteSet) (i : Nat) (k : Bid)
+    (h : (vs.addVerified c i k).2 = false) : (vs.addVerified c i k).1.maj23 = vs.maj23 := by
+  have h1 : (vs.recordVote c i k).maj23 = vs.maj23 := by
+    unfold VoteSet.recordVote; repeat' split
+    all_goals rfl
+  revert h
+  unfold VoteSet.addVerified
+  simp only []
+  repeat' split
+  all_goals first
+    | (intro _; exact h1)
+    | (intro h; unfold VoteSet.finish at h; simp at h)
+
+theorem VoteSet.addVote_not_added (c : Cfg) (vs : VoteSet) (v : Vote) (h : (vs.addVote c v).2 = false) :
+    (vs.addVote c v).1.maj23 = vs.maj23 := by
+  revert h
+  unfold VoteSet.addVote
+  repeat' split
+  all_goals first
+    | (intro _; rfl)
+    | exact VoteSet.addVerified_not_added c vs _ _
+
+/-- a majority recorded after `AddVote` was there before, or is in the set of the vote, which was added -/
+theorem HVS.addVote_maj23_new (c : Cfg) (h : HVS) (v : Vote) (peer : Peer) {r : Int} {t : VType} {x : Bid}
+    (hm : maj23Of ((h.addVote c v peer).1.getVoteSet r t) = some x) :
+    maj23Of (h.getVoteSet r t) = some x ∨ ((r = (v.round : Int) ∧ t = v.typ) ∧ (h.addVote c v peer).2 = true) := by
+  unfold HVS.addVote at hm ⊢
+  dsimp only at hm ⊢
+  split at hm
+  · rename_i vs hg
+    rw [getVoteSet_putVoteSet] at hm
+    split at hm
+    · rename_i hc
+      obtain ⟨_, e1, e2⟩ := hc
+      subst e1; subst e2
+      cases ha : (vs.addVote c v).2 with
+      | true => right; simp
+      | false =>
+        left
+        rw [hg]
+        have := VoteSet.addVote_not_added c vs v ha
+        simp only [maj23Of, Option.bind] at hm ⊢
+        rw [← this]; exact hm
+    · left; exact hm
+  · rename_i hg
+    split at hm
+    · rename_i hl
+      rw [getVoteSet_putVoteSet] at hm
+      have hn := getRound_none_of_getVoteSet hg
+      split at hm
+      · rename_i hc
+        obtain ⟨_, e1, e2⟩ := hc
+        subst e1; subst e2
+        cases ha : (VoteSet.empty.addVote c v).2 with
+        | true => right; simp [hl]
+        | false =>
+          have := VoteSet.addVote_not_added c VoteSet.empty v ha
+          simp only [maj23Of, Option.bind] at hm
+          rw [this] at hm; cases hm
+      · change maj23Of ((h.addRound (v.round : Int)).getVoteSet r t) = some x at hm
+        rw [getVoteSet_addRound h _ hn] at hm
+        split at hm
+        · simp [maj23Of, VoteSet.empty] at hm
+        · left; exact hm
+    · left; exact hm
+
+
+/-! ### the working forms of the invariant -/
+
+/-- the invariant of an undecided node, on the fields it reads; the rounds in `X` are exempt from
+`recd` (the round of a precommit that has just been added, until `afterPrecommit` has run) -/
+structure KUI (c : Cfg) (X : Nat → Prop) (pB pP : Option Nat) (pD hl : Bool) (st : Step) (cR : Int) (v : HVS)
+    (d : Option (Nat × Int)) : Prop where
+  pb : ∀ x, pB = some x → pP = some x ∧ pD = true
+  cr : hl = false → st = .commit → 0 ≤ cR ∧ ∃ b, maj23Of (v.getVoteSet cR .precommit) = some (some b)
+  ci : hl = false → st = .commit → ∀ b, maj23Of (v.getVoteSet cR .precommit) = some (some b) → pB ≠ some b
+  recd : hl = false → (∃ (r : Nat) (b : Nat), ¬ X r ∧ maj23Of (v.getVoteSet (r : Int) .precommit) = some (some b)) →
+    0 ≤ cR
+  und : d = none
+
+abbrev KU (c : Cfg) (X : Nat → Prop) (s : NodeState) : Prop :=
+  KUI c X s.proposalBlock s.proposalParts s.partsDone s.halted s.step s.commitRound s.votes s.decided
+
+/-- the invariant without `ci` (the state between setting the block and `tryFinalizeCommit`) -/
+structure KW (c : Cfg) (s : NodeState) : Prop where
+  pb : ∀ x, s.proposalBlock = some x → s.proposalParts = some x ∧ s.partsDone = true
+  cr : s.halted = false → s.step = .commit →
+    0 ≤ s.commitRound ∧ ∃ b, maj23Of (s.votes.getVoteSet s.commitRound .precommit) = some (some b)
+  recd : s.halted = false → (∃ (r : Nat) (b : Nat), maj23Of (s.votes.getVoteSet (r : Int) .precommit) = some (some b)) →
+    0 ≤ s.commitRound
+  dec : ∀ b r, s.decided = some (b, r) → r = s.commitRound ∧
+    maj23Of (s.votes.getVoteSet s.commitRound .precommit) = some (some b)
+
+abbrev NoX : Nat → Prop := fun _ => False
+
+variable {c : Cfg} {X : Nat → Prop}
+
+theorem KI.toKW {s : NodeState} (h : KI c s) : KW c s := ⟨h.pb, h.cr, h.recd, h.dec⟩
+
+theorem KI.toKU {s : NodeState} (h : KI c s) (hd : s.decided = none) : KU c NoX s :=
+  ⟨h.pb, h.cr, fun hh hs => h.ci hh hs hd, fun hh ⟨r, b, _, hm⟩ => h.recd hh ⟨r, b, hm⟩, hd⟩
+
+/-- in the commit step or halted the exemption is void -/
+theorem KU.toKI {s : NodeState} (h : KU c X s) (hx : s.halted = true ∨ s.step = .commit ∨ ∀ r, ¬ X r) : KI c s := by
+  refine ⟨h.pb, h.cr, fun hh hs _ => h.ci hh hs, ?_, ?_⟩
+  · intro hh ⟨r, b, hm⟩
+    rcases hx with hx | hx | hx
+    · rw [hx] at hh; cases hh
+    · exact (h.cr hh hx).1
+    · exact h.recd hh ⟨r, b, hx r, hm⟩
+  · intro b r hd; rw [h.und] at hd; cases hd
+
+theorem KU.toKI' {s : NodeState} (h : KU c NoX s) : KI c s := h.toKI (Or.inr (Or.inr fun _ hx => hx))
+
+theorem KU.weaken {s : NodeState} (h : KU c NoX s) : KU c X s :=
+  ⟨h.pb, h.cr, h.ci, fun hh ⟨r, b, _, hm⟩ => h.recd hh ⟨r, b, fun hx => hx, hm⟩, h.und⟩
+
+/-- outside the commit step `ci` is void -/
+theorem KW.toKU {s : NodeState} (h : KW c s) (hd : s.decided = none) (hs : s.step ≠ .commit) : KU c NoX s :=
+  ⟨h.pb, h.cr, fun _ hs' => absurd hs' hs, fun hh ⟨r, b, _, hm⟩ => h.recd hh ⟨r, b, hm⟩, hd⟩
+
+theorem KW.toKI {s : NodeState} (h : KW c s) (hs : s.step ≠ .commit) : KI c s :=
+  ⟨h.pb, h.cr, fun _ hs' => absurd hs' hs, h.recd, h.dec⟩
+
+/-! ### the primitives -/
+
+theorem emit_halted_K (s : NodeState) (o : Output) : (emit s o).halted = s.halted := by
+  unfold emit; split <;> rfl
+
+theorem sign_halted_K {s s' : NodeState} {r cd : Nat} {p : Payload} (h : sign c s r cd p = some s') :
+    s'.halted = s.halted := by
+  unfold sign at h
+  repeat' split at h
+  all_goals first | (cases h; rfl) | simp at h
+
+theorem signAddVote_halted_K (s : NodeState) (t : VType) (b : Bid) : (signAddVote c s t b).halted = s.halted := by
+  unfold signAddVote
+  repeat' split
+  all_goals first | rfl | skip
+  rename_i s' hs
+  show (emit s' _).halted = _
+  rw [emit_halted_K, sign_halted_K hs]
+
+theorem decideProposal_halted_K (s : NodeState) (r me : Nat) : (decideProposal c s r me).halted = s.halted := by
+  unfold decideProposal
+  simp only []
+  split
+  · rename_i s' hs
+    show (emit s' _).halted = _
+    rw [emit_halted_K, sign_halted_K hs]
+  · rfl
+
+theorem doPrevote_halted_K (s : NodeState) : (doPrevote c s).halted = s.halted := by
+  unfold doPrevote
+  repeat' split
+  all_goals exact signAddVote_halted_K ..
+
+/-- the invariant only reads `Core` fields and `halted`, and halting makes it easier -/
+theorem KU.core {s t : NodeState} (hc : Core t = Core s) (hh : t.halted = false → s.halted = false)
+    (h : KU c X s) : KU c X t := by
+  unfold Core at hc
+  simp only [Prod.mk.injEq] at hc
+  obtain ⟨_, est, _, _, _, _, _, epb, epp, epd, ecr, _, ev, _, ed⟩ := hc
+  show KUI _ _ _ _ _ _ _ _ _ _
+  rw [est, epb, epp, epd, ecr, ev, ed]
+  exact ⟨h.pb, fun h1 => h.cr (hh h1), fun h1 => h.ci (hh h1), fun h1 => h.recd (hh h1), h.und⟩
+
+/-! ### changes of the fields the invariant reads -/
+
+section
+variable {pb pp : Option Nat} {pd hl : Bool} {st : Step} {cR : Int} {v : HVS} {d : Option (Nat × Int)}
+
+theorem KUI.step (h : KUI c X pb pp pd hl st cR v d) {st' : Step} (hst : st' ≠ .commit) :
+    KUI c X pb pp pd hl st' cR v d :=
+  ⟨h.pb, fun _ hs => absurd hs hst, fun _ hs => absurd hs hst, h.recd, h.und⟩
+
+/-- dropping the block (and waiting for other parts) -/
+theorem KUI.dropBlock (h : KUI c X pb pp pd hl st cR v d) (pp' : Option Nat) (pd' : Bool) :
+    KUI c X none pp' pd' hl st cR v d :=
+  ⟨fun _ e => (by cases e), h.cr, fun _ _ _ _ e => (by cases e), h.recd, h.und⟩
+
+/-- replacing the part set while no block is held -/
+theorem KUI.setParts (h : KUI c X pb pp pd hl st cR v d) (hb : pb = none) (pp' : Option Nat) (pd' : Bool) :
+    KUI c X pb pp' pd' hl st cR v d :=
+  ⟨fun x e => (by rw [e] at hb; cases hb), h.cr, h.ci, h.recd, h.und⟩
+
+theorem KUI.halt (h : KUI c X pb pp pd hl st cR v d) : KUI c X pb pp pd true st cR v d :=
+  ⟨h.pb, fun e => (by cases e), fun e => (by cases e), fun e => (by cases e), h.und⟩
+
+/-- the vote sets move on without a new recorded majority -/
+theorem KUI.votes (h : KUI c X pb pp pd hl st cR v d) {v' : HVS} (hx : HExt c (fun _ _ _ => False) v v') :
+    KUI c X pb pp pd hl st cR v' d := by
+  refine ⟨h.pb, ?_, ?_, ?_, h.und⟩
+  · intro h1 h2
+    obtain ⟨h3, b, hb⟩ := h.cr h1 h2
+    exact ⟨h3, b, hx.maj23 hb⟩
+  · intro h1 h2 b hb
+    exact h.ci h1 h2 b (hx.maj23_back hb)
+  · intro h1 ⟨r, b, hn, hb⟩
+    exact h.recd h1 ⟨r, b, hn, hx.maj23_back hb⟩
+end
+
+theorem KU.step {B : NodeState} (h : KU c X B) {st' : Step} (hst : st' ≠ .commit) :
+    KUI c X B.proposalBlock B.proposalParts B.partsDone B.halted st' B.commitRound B.votes B.decided :=
+  KUI.step h hst
+theorem KU.dropBlock {B : NodeState} (h : KU c X B) (pp' : Option Nat) (pd' : Bool) :
+    KUI c X none pp' pd' B.halted B.step B.commitRound B.votes B.decided :=
+  KUI.dropBlock h pp' pd'
+
+theorem hasHeader_self (x : Nat) : hasHeader (some x) (some x) = true := by simp [hasHeader]
+theorem hashesTo_eq {ob : Option Nat} {bid : Bid} (h : hashesTo ob bid = true) : ∃ b, ob = some b ∧ bid = some b := by
+  unfold hashesTo at h
+  split at h
+  · rename_i b b'; simp at h; subst h; exact ⟨b, rfl, rfl⟩
+  · cases h
+
+/-! ### every function of the node model that cannot decide keeps `KU` -/
+
+attribute [local irreducible] emit panicWith sign signAddVote decideProposal doPrevote enterPrevote enterPropose
+  enterNewRound newRoundReset enterPrevoteWait unlock enterPrecommit enterPrecommitWait finalizeCommit tryFinalizeCommit
+  enterCommit setProposal handleCompleteProposal addBlockPart addVote onPolka prevoteTransitions afterPrevote
+  afterPrecommit handleInternal handleTimeout
+  handleTxsAvailable handleInput drain step run HVS.addVote HVS.setRound HVS.setPeerMaj23 HVS.polRound
+  isProposalComplete maj23Of hasAnyOf hashesTo hasHeader
+
+syntax "kinv_step" : tactic
+macro_rules | `(tactic| kinv_step) => `(tactic| refine KU.dropBlock ?_ _ _)
+macro_rules | `(tactic| kinv_step) => `(tactic| refine KU.step ?_ (by decide))
+macro_rules | `(tactic| kinv_step) => `(tactic| assumption)
+macro "kinv" : tactic => `(tactic| repeat' (first | (dsimp only [KU]; kinv_step) | kinv_step))
+
+theorem emit_U {s : NodeState} (o : Output) (h : KU c X s) : KU c X (emit s o) :=
+  h.core (emit_core s o) (by rw [emit_halted_K]; exact id)
+macro_rules | `(tactic| kinv_step) => `(tactic| apply emit_U)
+theorem panicWith_U {s : NodeState} (w : String) (h : KU c X s) : KU c X (panicWith s w) :=
+  h.core (panicWith_core s w) (by rw [panicWith_halted]; intro e; cases e)
+macro_rules | `(tactic| kinv_step) => `(tactic| apply panicWith_U)
+theorem signAddVote_U {s : NodeState} (t : VType) (b : Bid) (h : KU c X s) : KU c X (signAddVote c s t b) :=
+  h.core (signAddVote_core c s t b) (by rw [signAddVote_halted_K]; exact id)
+macro_rules | `(tactic| kinv_step) => `(tactic| apply signAddVote_U)
+theorem decideProposal_U {s : NodeState} (r me : Nat) (h : KU c X s) : KU c X (decideProposal c s r me) :=
+  h.core (decideProposal_core c s r me) (by rw [decideProposal_halted_K]; exact id)
+macro_rules | `(tactic| kinv_step) => `(tactic| apply decideProposal_U)
+theorem doPrevote_U {s : NodeState} (h : KU c X s) : KU c X (doPrevote c s) :=
+  h.core (doPrevote_core c s) (by rw [doPrevote_halted_K]; exact id)
+macro_rules | `(tactic| kinv_step) => `(tactic| apply doPrevote_U)
+theorem unlock_U {s : NodeState} (h : KU c X s) : KU c X (unlock s) := by
+  unfold unlock; exact h
+macro_rules | `(tactic| kinv_step) => `(tactic| apply unlock_U)
+
+theorem enterPrevote_U {s : NodeState} (r : Nat) (h : KU c X s) : KU c X (enterPrevote c s r) := by
+  unfold enterPrevote; (try simp only []); repeat' split
+  all_goals kinv
+macro_rules | `(tactic| kinv_step) => `(tactic| apply enterPrevote_U)
+
+theorem enterPropose_U {s : NodeState} (r : Nat) (h : KU c X s) : KU c X (enterPropose c s r) := by
+  unfold enterPropose; (try simp only []); repeat' split
+  all_goals kinv
+macro_rules | `(tactic| kinv_step) => `(tactic| apply enterPropose_U)
+
+
+theorem newRoundReset_U {s : NodeState} (r : Nat) (h : KU c X s) : KU c X (newRoundReset s r) := by
+  unfold newRoundReset; simp only []; split
+  · dsimp only [KU]; exact KUI.step h (by decide)
+  · dsimp only [KU]; exact KUI.dropBlock (KUI.step h (by decide)) _ _
+
+theorem enterNewRound_U {s : NodeState} (r : Nat) (h : KU c X s) : KU c X (enterNewRound c s r) := by
+  unfold enterNewRound
+  split
+  · exact h
+  · split
+    · exact h
+    · simp only []
+      have h' : KU c X (newRoundReset s r) := newRoundReset_U r h
+      split
+      · kinv
+      · rename_i hv hsr
+        have h2 : KU c X { newRoundReset s r with votes := hv, triggered := false } :=
+          KUI.votes h' (HExt.setRound c _ _ _ _ hsr)
+        repeat' split
+        all_goals kinv
+macro_rules | `(tactic| kinv_step) => `(tactic| apply enterNewRound_U)
+
+theorem enterPrevoteWait_U {s : NodeState} (r : Nat) (h : KU c X s) : KU c X (enterPrevoteWait c s r) := by
+  unfold enterPrevoteWait; (try simp only []); repeat' split
+  all_goals kinv
+macro_rules | `(tactic| kinv_step) => `(tactic| apply enterPrevoteWait_U)
+
+theorem enterPrecommit_U {s : NodeState} (r : Nat) (h : KU c X s) : KU c X (enterPrecommit c s r) := by
+  unfold enterPrecommit; (try simp only []); repeat' split
+  all_goals kinv
+macro_rules | `(tactic| kinv_step) => `(tactic| apply enterPrecommit_U)
+
+theorem enterPrecommitWait_U {s : NodeState} (r : Nat) (h : KU c X s) : KU c X (enterPrecommitWait c s r) := by
+  unfold enterPrecommitWait; (try simp only []); repeat' split
+  all_goals kinv
+macro_rules | `(tactic| kinv_step) => `(tactic| apply enterPrecommitWait_U)
+
+
+theorem setProposal_U {s : NodeState} (p : Proposal) (h : KU c X s) : KU c X (setProposal c s p) := by
+  unfold setProposal; (try simp only []); repeat' split
+  all_goals first
+    | (kinv; done)
+    | skip
+  rename_i hn
+  dsimp only [KU] at hn ⊢
+  refine KUI.setParts h ?_ _ _
+  cases hb : s.proposalBlock with
+  | none => rfl
+  | some x => rw [(h.pb x hb).1] at hn; cases hn
+macro_rules | `(tactic| kinv_step) => `(tactic| apply setProposal_U)
+
+theorem onPolka_U {s : NodeState} (vr : Nat) (bid : Bid) (h : KU c X s) : KU c X (onPolka s vr bid) := by
+  have key : ∀ t : NodeState, KU c X t → KU c X
+      (if bid.isSome ∧ t.validRound < (vr : Int) ∧ vr = t.round then
+        (let t' := if hashesTo t.proposalBlock bid then
+            { t with validRound := vr, validBlock := t.proposalBlock }
+          else { t with proposalBlock := none }
+        if !hasHeader t'.proposalParts bid then
+          { t' with proposalParts := bid, partsDone := false } else t')
+      else t) := by
+    intro t ht
+    simp only []
+    repeat' split
+    all_goals first
+      | (kinv; done)
+      | skip
+    rename_i hh hn
+    obtain ⟨b, hb, e⟩ := hashesTo_eq hh
+    subst e
+    dsimp only at hn
+    rw [(ht.pb b hb).1, hasHeader_self] at hn
+    cases hn
+  unfold onPolka
+  simp only []
+  split
+  · exact key _ (unlock_U h)
+  · exact key _ h
+macro_rules | `(tactic| kinv_step) => `(tactic| apply onPolka_U)
+
+theorem prevoteTransitions_U {s : NodeState} (vr : Nat) (h : KU c X s) : KU c X (prevoteTransitions c s vr) := by
+  unfold prevoteTransitions; (try simp only []); repeat' split
+  all_goals kinv
+macro_rules | `(tactic| kinv_step) => `(tactic| apply prevoteTransitions_U)
+
+theorem afterPrevote_U {s : NodeState} (vr : Nat) (h : KU c X s) : KU c X (afterPrevote c s vr) := by
+  unfold afterPrevote; (try simp only []); repeat' split
+  all_goals kinv
+macro_rules | `(tactic| kinv_step) => `(tactic| apply afterPrevote_U)
+
+theorem handleTimeout_U {s : NodeState} (r : Nat) (st : Step) (h : KU c X s) : KU c X (handleTimeout c s r st) := by
+  unfold handleTimeout; (try simp only []); repeat' split
+  all_goals kinv
+
+theorem handleTxsAvailable_U {s : NodeState} (h : KU c X s) : KU c X (handleTxsAvailable c s) := by
+  unfold handleTxsAvailable; (try simp only []); repeat' split
+  all_goals kinv
+
+
+/-! ### the functions that can decide -/
+
+theorem KW.toKI_of {s : NodeState} (h : KW c s) (hci : s.halted = true ∨ s.step ≠ .commit ∨ s.decided ≠ none) : KI c s := by
+  refine ⟨h.pb, h.cr, ?_, h.recd, h.dec⟩
+  intro h1 h2 h3
+  rcases hci with hci | hci | hci
+  · rw [hci] at h1; cases h1
+  · exact absurd h2 hci
+  · exact absurd h3 hci
+
+theorem KW.core {s t : NodeState} (hc : Core t = Core s) (hh : t.halted = false → s.halted = false)
+    (h : KW c s) : KW c t := by
+  unfold Core at hc
+  simp only [Prod.mk.injEq] at hc
+  obtain ⟨_, est, _, _, _, _, _, epb, epp, epd, ecr, _, ev, _, ed⟩ := hc
+  refine ⟨?_, ?_, ?_, ?_⟩
+  · rw [epb, epp, epd]; exact h.pb
+  · intro h1; rw [est, ecr, ev]; exact h.cr (hh h1)
+  · intro h1; rw [ecr, ev]; exact h.recd (hh h1)
+  · rw [ed, ecr, ev]; exact h.dec
+
+theorem panicWith_K {s : NodeState} (w : String) (h : KW c s) : KI c (panicWith s w) :=
+  (h.core (panicWith_core s w) (by rw [panicWith_halted]; intro e; cases e)).toKI_of (Or.inl (panicWith_halted s w))
+
+theorem hashesTo_self (b : Nat) : hashesTo (some b) (some b) = true := by
+  unfold hashesTo; simp
+
+theorem rank_commit_le {st : Step} (h : Step.commit.rank ≤ st.rank) : st = .commit := by
+  cases st <;> simp [Step.rank] at h ⊢
+
+theorem rank_le_propose {st : Step} (h : st.rank ≤ Step.propose.rank) : st ≠ .commit := by
+  cases st <;> simp [Step.rank] at h ⊢
+
+theorem finalizeCommit_K {s : NodeState} (h : KW c s) : KI c (finalizeCommit c s) := by
+  unfold finalizeCommit; (try simp only []); repeat' split
+  all_goals first
+    | exact panicWith_K _ h
+    | exact h.toKI_of (Or.inl ‹_›)
+    | exact h.toKI_of (Or.inr (Or.inl ‹_›))
+    | skip
+  rename_i b hm _ _ _
+  have he : KW c (emit s (.decide b s.commitRound)) :=
+    h.core (emit_core s _) (by rw [emit_halted_K]; exact id)
+  have hcr : (emit s (.decide b s.commitRound)).commitRound = s.commitRound :=
+    congrArg (fun x => x.2.2.2.2.2.2.2.2.2.2.1) (emit_core s _)
+  refine ⟨he.pb, he.cr, ?_, he.recd, ?_⟩
+  · intro _ _ hd; cases hd
+  · intro b' r' hd
+    cases hd
+    refine ⟨rfl, ?_⟩
+    show maj23Of ((emit s _).votes.getVoteSet (emit s _).commitRound .precommit) = _
+    rw [emit_votes, hcr]
+    exact hm
+
+theorem tryFinalizeCommit_K {s : NodeState} (h : KW c s) : KI c (tryFinalizeCommit c s) := by
+  unfold tryFinalizeCommit; (try simp only []); repeat' split
+  all_goals first
+    | exact finalizeCommit_K h
+    | exact h.toKI_of (Or.inl ‹_›)
+    | skip
+  all_goals refine ⟨h.pb, h.cr, ?_, h.recd, h.dec⟩
+  · rename_i hm
+    intro _ _ _ b hb
+    have : maj23Of (s.votes.getVoteSet s.commitRound .precommit) = none := hm
+    rw [this] at hb; cases hb
+  · rename_i hm
+    intro _ _ _ b hb
+    have : maj23Of (s.votes.getVoteSet s.commitRound .precommit) = some none := hm
+    rw [this] at hb; cases hb
+  · rename_i _ hm hn
+    intro _ _ _ b hb
+    have : maj23Of (s.votes.getVoteSet s.commitRound .precommit) = some _ := hm
+    rw [this] at hb; cases hb
+    intro e
+    rw [e, hashesTo_self] at hn
+    simp at hn
+
+theorem enterCommit_K {s : NodeState} (r : Nat) (b : Nat) (h : KU c X s)
+    (hm : maj23Of (s.votes.getVoteSet (r : Int) .precommit) = some (some b)) : KI c (enterCommit c s r) := by
+  unfold enterCommit
+  split
+  · exact h.toKI (Or.inl ‹_›)
+  · split
+    · exact h.toKI (Or.inr (Or.inl (rank_commit_le ‹_›)))
+    · split
+      · rename_i hn
+        have : maj23Of (s.votes.getVoteSet (r : Int) .precommit) = none := hn
+        rw [this] at hm; cases hm
+      · simp only []
+        apply tryFinalizeCommit_K
+        repeat' split
+        all_goals refine ⟨?_, fun _ _ => ⟨Int.natCast_nonneg _, b, hm⟩, fun _ _ => Int.natCast_nonneg _, fun b' r' hd => ?_⟩
+        all_goals first
+          | (have hu : s.decided = none := h.und
+             have hd' : s.decided = some (b', r') := hd
+             rw [hu] at hd'; cases hd'; done)
+          | exact h.pb
+          | (intro x e; cases e; done)
+          | (intro x e; exact ⟨e, rfl⟩)
+
+
+theorem handleCompleteProposal_K {s : NodeState} (h : KW c s) (hd : s.decided = none) :
+    KI c (handleCompleteProposal c s) := by
+  have hs : s.step.rank ≤ Step.propose.rank → KU c NoX s := fun hr => h.toKU hd (rank_le_propose hr)
+  unfold handleCompleteProposal; (try simp only []); repeat' split
+  all_goals first
+    | (apply tryFinalizeCommit_K; exact ⟨h.pb, h.cr, h.recd, h.dec⟩)
+    | (have h1 : KU c NoX s := hs (And.left ‹_›)
+       apply KU.toKI'; kinv; done)
+    | exact KW.toKI ⟨h.pb, h.cr, h.recd, h.dec⟩ ‹_›
+
+theorem addBlockPart_K {s : NodeState} (b : Nat) (h : KU c NoX s) : KI c (addBlockPart c s b) := by
+  unfold addBlockPart; (try simp only []); repeat' split
+  all_goals first
+    | exact h.toKI'
+    | skip
+  rename_i x hp hx _
+  simp at hx
+  subst hx
+  apply handleCompleteProposal_K
+  · refine ⟨?_, h.cr, fun hh ⟨r, b, hm⟩ => h.recd hh ⟨r, b, fun hx => hx, hm⟩, ?_⟩
+    · intro y e; cases e; exact ⟨hp, rfl⟩
+    · intro b' r' hd
+      have hu : s.decided = none := h.und
+      have hd' : s.decided = some (b', r') := hd
+      rw [hu] at hd'; cases hd'
+  · exact h.und
+
+theorem KU.mono {X' : Nat → Prop} {s : NodeState} (hX : ∀ r, X r → X' r) (h : KU c X s) : KU c X' s :=
+  ⟨h.pb, h.cr, h.ci, fun hh ⟨r, b, hn, hm⟩ => h.recd hh ⟨r, b, fun hx => hn (hX r hx), hm⟩, h.und⟩
+
+/-- the exempt round has no recorded majority for a block: nothing is exempt -/
+theorem KU.upgrade {s : NodeState} {vr : Nat} (h : KU c (fun r => r = vr) s)
+    (hn : ∀ b, maj23Of (s.votes.getVoteSet (vr : Int) .precommit) ≠ some (some b)) : KU c NoX s := by
+  refine ⟨h.pb, h.cr, h.ci, ?_, h.und⟩
+  intro hh ⟨r, b, _, hm⟩
+  by_cases e : r = vr
+  · subst e; exact absurd hm (hn b)
+  · exact h.recd hh ⟨r, b, e, hm⟩
+
+theorem afterPrecommit_K {s : NodeState} (vr : Nat) (h : KU c (fun r => r = vr) s) :
+    KI c (afterPrecommit c s vr) := by
+  unfold afterPrecommit; (try simp only [])
+  split
+  · rename_i bid hm
+    have hm' : maj23Of (s.votes.getVoteSet (vr : Int) .precommit) = some bid := hm
+    cases bid with
+    | none =>
+      have h0 : KU c NoX s := h.upgrade (fun b hb => by rw [hm'] at hb; cases hb)
+      simp only [Option.isSome_none, Bool.false_eq_true, if_false]
+      apply KU.toKI'; kinv
+    | some b =>
+      simp only [Option.isSome_some, if_true]
+      apply enterCommit_K vr b (X := fun r => r = vr)
+      · kinv
+      · exact (enterPrecommit_X (A := fun _ _ _ => True) vr
+          (enterNewRound_X vr (HExt.refl c _ s.votes))).maj23 hm'
+  · rename_i hm
+    have hm' : maj23Of (s.votes.getVoteSet (vr : Int) .precommit) = none := hm
+    have h0 : KU c NoX s := h.upgrade (fun b hb => by rw [hm'] at hb; cases hb)
+    repeat' split
+    all_goals (apply KU.toKI'; kinv)
+
+theorem addVote_K {s : NodeState} (v : Vote) (peer : Peer) (h : KU c NoX s) : KI c (addVote c s v peer) := by
+  have hx : HExt c (fun _ _ _ => True) s.votes (s.votes.addVote c v peer).1 :=
+    HExt.addVote c _ s.votes v peer trivial
+  have h1 : KU c (fun r => r = v.round ∧ v.typ = .precommit ∧ (s.votes.addVote c v peer).2 = true)
+      { s with votes := (s.votes.addVote c v peer).1 } := by
+    refine ⟨h.pb, ?_, ?_, ?_, h.und⟩
+    · intro hh hs
+      obtain ⟨h3, b, hb⟩ := h.cr hh hs
+      exact ⟨h3, b, hx.maj23 hb⟩
+    · intro hh hs b hb
+      obtain ⟨_, b0, hb0⟩ := h.cr hh hs
+      have hb1 := hx.maj23 hb0
+      have hb' : maj23Of ((s.votes.addVote c v peer).1.getVoteSet s.commitRound .precommit) = some (some b) := hb
+      rw [hb1] at hb'
+      cases hb'
+      exact h.ci hh hs b hb0
+    · intro hh ⟨r, b, hn, hm⟩
+      rcases HVS.addVote_maj23_new c s.votes v peer hm with ho | ⟨⟨e1, e2⟩, e3⟩
+      · exact h.recd hh ⟨r, b, fun hx => hx, ho⟩
+      · exact absurd ⟨by omega, e2.symm, e3⟩ hn
+  unfold addVote; (try simp only [])
+  split
+  · rename_i hr
+    refine h1.toKI (Or.inr (Or.inr ?_))
+    intro r ⟨_, _, e⟩
+    rw [e] at hr; simp at hr
+  · split
+    · rename_i ht
+      refine (afterPrevote_U _ h1).toKI (Or.inr (Or.inr ?_))
+      intro r ⟨_, e, _⟩
+      rw [ht] at e; cases e
+    · exact afterPrecommit_K _ (h1.mono fun r hr => hr.1)
+
+theorem handleInternal_K {s : NodeState} (m : Internal) (h : KU c NoX s) : KI c (handleInternal c s m) := by
+  unfold handleInternal
+  cases m with
+  | proposal p => exact (setProposal_U p h).toKI'
+  | part b => exact addBlockPart_K b h
+  | vote v => exact addVote_K v 0 h
+
+theorem handleInput_K {s : NodeState} (i : Input) (h : KU c NoX s) : KI c (handleInput c s i) := by
+  unfold handleInput
+  cases i with
+  | timeout r st => exact (handleTimeout_U r st h).toKI'
+  | peerMaj23 r t peer bid =>
+    exact KU.toKI' (s := { s with votes := s.votes.setPeerMaj23 r t peer bid })
+      (KUI.votes h (HExt.setPeerMaj23 c _ _ _ _ _ _))
+  | proposal p => exact (setProposal_U p h).toKI'
+  | blockComplete b => exact addBlockPart_K b h
+  | vote v peer => exact addVote_K v peer h
+  | txsAvailable => exact (handleTxsAvailable_U h).toKI'
+
+theorem drain_K (fuel : Nat) {s : NodeState} (h : KI c s) : KI c (drain c fuel s) := by
+  induction fuel generalizing s with
+  | zero => unfold drain; exact h
+  | succ n ih =>
+    unfold drain; repeat' split
+    all_goals first | exact h | skip
+    rename_i hg _ m rest hq
+    have hd : s.decided = none := by
+      cases hdd : s.decided with
+      | none => rfl
+      | some x => exact absurd (Or.inr (show s.decided.isSome = true by rw [hdd]; rfl)) hg
+    have h' : KU c NoX { s with queue := rest } := h.toKU hd
+    exact ih (handleInternal_K m h')
+
+
 theorem KI.init (c : Cfg) : KI c NodeState.init := by
-  sorry
+  have hn : ∀ (r : Int) (x : Bid), maj23Of (NodeState.init.votes.getVoteSet r .precommit) ≠ some x := by
+    intro r x hm
+    obtain ⟨vs, hg, hx⟩ := maj23Of_some_iff.1 hm
+    have hg' : HVS.init.getVoteSet r .precommit = some vs := hg
+    rw [getVoteSet_init] at hg'
+    split at hg'
+    · cases hg'; cases hx
+    · cases hg'
+  refine ⟨?_, ?_, ?_, ?_, ?_⟩
+  · intro x e; cases e
+  · intro _ e; cases e
+  · intro _ e; cases e
+  · intro _ ⟨r, b, hm⟩; exact absurd hm (hn _ _)
+  · intro b r e; cases e
 
 /-- one input of the receive routine keeps the invariant (no hypothesis on the input) -/
 theorem step_K {c : Cfg} {s : NodeState} (i : Input) (h : KI c s) : KI c (step c s i) := by
-  sorry
+  unfold step; split
+  · exact h
+  · rename_i hg
+    have hd : s.decided = none := by
+      cases hdd : s.decided with
+      | none => rfl
+      | some x => exact absurd (Or.inr (show s.decided.isSome = true by rw [hdd]; rfl)) hg
+    exact drain_K _ (handleInput_K i (h.toKU hd))
 
 theorem run_K {c : Cfg} (is : List Input) {s : NodeState} (h : KI c s) : KI c (run c s is) := by
   induction is generalizing s with
@@ -50,6 +683,18 @@ theorem quorum_and_block_decide {c : Cfg} (is : List Input) (r b : Nat)
       b' = b)
     (hb : (run c .init is).proposalBlock = some b) :
     (run c .init is).decided = some (b, (run c .init is).commitRound) := by
-  sorry
+  have hk : KI c (run c .init is) := run_K is (KI.init c)
+  have hst := hnorphan (hk.recd hh ⟨r, b, hm⟩)
+  obtain ⟨_, b', hm'⟩ := hk.cr hh hst
+  have e := hcv b' hm'
+  subst e
+  cases hd : (run c .init is).decided with
+  | none => exact absurd hb (hk.ci hh hst hd b' hm')
+  | some x =>
+    obtain ⟨b1, r1⟩ := x
+    obtain ⟨e1, e2⟩ := hk.dec b1 r1 hd
+    rw [hm'] at e2
+    cases e2
+    rw [e1]
 
 end Tmv.Cons
